@@ -644,12 +644,23 @@ Proof.
   - cbn [snd]. destruct (c_nocpukinds c); fp_auto.
 Qed.
 
+Lemma fp_load_statics t c g : fp_all t (snd (load_statics c g)) = true.
+Proof.
+  unfold load_statics. destruct (c_xml c); [|reflexivity].
+  pose proof (fp_static_use t SNolibxmlImport g) as P1. destruct (static_use SNolibxmlImport g) as [g1 e1].
+  assert (P2 : fp_all t (snd (if g_libxml g then libxml_init_once g1 else (g1, []))) = true)
+    by (destruct (g_libxml g); [apply fp_libxml_init | reflexivity]).
+  destruct (if g_libxml g then libxml_init_once g1 else (g1, [])) as [g2 e2]. cbn [snd] in *. fp_auto.
+Qed.
+
 Lemma fp_run_op s o : fp_all (op_topo o) (snd (run_op s o)) = true.
 Proof.
   destruct o as [t|t c|t|t m|t c]; cbn [run_op op_topo].
   - destruct (get_topo s t); [reflexivity|]. cbn [snd]. destruct (g_users (s_glob s) =? 0); fp_auto.
   - destruct (get_topo s t) as [tp|]; [|reflexivity]. destruct (t_loaded tp); [fp_simpl|].
-    pose proof (fp_load_run t c) as P. destruct (load_run t c). exact P.
+    pose proof (fp_load_run t c) as P. destruct (load_run t c) as [tp' e].
+    pose proof (fp_load_statics t c (s_glob s)) as P0. destruct (load_statics c (s_glob s)) as [g' e0].
+    cbn [snd] in *. fp_auto.
   - destruct (get_topo s t) as [tp|]; [|reflexivity]. cbn [snd].
     destruct (g_users (s_glob s) =? 1); fp_auto.
   - destruct (get_topo s t) as [tp|]; [|reflexivity].
@@ -782,3 +793,51 @@ Proof.
       split; [discriminate|]. split; [|exact S1].
       simpl. intros W u N. apply Nat.eqb_eq in W. pose proof (held_two_le_total h t u (not_eq_sym N)). lia.
 Qed.
+
+(* ------------------------------------------------------------------ *)
+(** * The composed statements *)
+
+(* readers of refreshed topologies: every interleaving of their event lists is race free, every read
+   sees what it sees when the thread runs alone, and under every schedule of calls every thread gets
+   the results of its sequential run *)
+Theorem interleaving_race_free s progs :
+  all_valid s = true ->
+  (forall p, In p progs -> readers_ok (s_glob s) p = true) ->
+  (forall il, is_interleaving (map (events_of s) progs) il ->
+     race_free il /\
+     forall t m, obs_of t (exec m il) = obs_of t (exec m (alone t (events_of s (nth t progs []))))) /\
+  (forall sched t, fst (run_sched s progs sched) = s /\
+     results_of_thread t (snd (run_sched s progs sched)) =
+       firstn (count_occ Nat.eq_dec sched t) (results_of s (nth t progs []))).
+Proof.
+  intros V R.
+  assert (W : forall p, In p (map (events_of s) progs) -> writes p = []).
+  { intros p Hp. apply in_map_iff in Hp. destruct Hp as [q [E Hq]]. subst p.
+    apply (run_prog_readers s q V (R q Hq)). }
+  split.
+  - intros il Hil. split.
+    + apply (readers_race_free _ il Hil W).
+    + intros t m. rewrite <- nth_map_events.
+      apply (observations_schedule_independent _ il t m Hil). apply isolated_no_writes. exact W.
+  - intros sched t. apply (sched_results_alone s V t sched progs R).
+Qed.
+
+(* sequential composition is one of the interleavings *)
+Lemma proj_app t a b : proj t (a ++ b) = proj t a ++ proj t b.
+Proof. unfold proj. rewrite filter_app, map_app. reflexivity. Qed.
+
+Lemma proj_alone t u p : proj t (alone u p) = if Nat.eqb u t then p else [].
+Proof.
+  unfold proj, alone. induction p as [|e r IH]; simpl.
+  - destruct (Nat.eqb u t); reflexivity.
+  - destruct (Nat.eqb u t) eqn:E; simpl; rewrite IH; reflexivity.
+Qed.
+
+Lemma is_interleaving_seq2 p0 p1 : is_interleaving [p0; p1] (alone 0 p0 ++ alone 1 p1).
+Proof.
+  intro t. rewrite proj_app, !proj_alone. destruct t as [|[|t]]; simpl; rewrite ?app_nil_r; try reflexivity.
+  destruct t; reflexivity.
+Qed.
+
+Lemma race_b_true_not_free il : race_b il = true -> ~ race_free il.
+Proof. intros H F. apply race_b_false_iff in F. congruence. Qed.
